@@ -276,6 +276,10 @@ def execute_random(case) -> Outcome:
 def flaky_cases(tier):
     cases = []
     for kind in ("101", "connect", "connect-204"):
+        for d in (0, 1, 5, 300):
+            for sync in (True, False):
+                cases.append({"kind": kind, "d": d, "m": 65536, "fault": "request-write-error", "sync": sync})
+    for kind in ("101", "connect", "connect-204"):
         for d in (1, 2, 5, 300):
             for m in (d, d + 1, d + 50, 65536):
                 for fault in ("ReadTimeout", "ReadError"):
@@ -289,6 +293,8 @@ def execute_flaky(case) -> Outcome:
     then reads with max_bytes m. The FIRST read that goes to the network fails once (ReadTimeout: nothing is lost on the wire; ReadError: the
     connection is gone). Whatever the caller gets - before the failure and, after a timeout, by reading again - must start with the d leading bytes."""
     kind, d, m, sync = case["kind"], case["d"], case["m"], case["sync"]
+    if case["fault"] == "request-write-error":
+        return execute_request_write_error(case)
 
     def once(fault):
         cfg = NetConfig(default_plan=_plan(kind, d), plans={"n1": {}})
@@ -371,6 +377,56 @@ def execute_flaky(case) -> Outcome:
                      f"(errors seen: {res['errors']})", **sig))
     return Outcome(vio, ["flaky-live-read", "fault-" + case["fault"], "fired" if world.fired_faults else "not-fired"], bool(world.fired_faults),
                    info={"got": len(res["got"]), "errors": res["errors"]})
+
+def execute_request_write_error(case) -> Outcome:
+    """The write of the Upgrade / CONNECT request itself reports an error AFTER the bytes went out (httpcore suppresses a write error while sending
+    and goes on to read the response); the server answers 101 / 2xx with d bytes behind the head in the same read. If the hand-over happens, the
+    stream must still yield exactly those bytes."""
+    kind, d, sync = case["kind"], case["d"], case["sync"]
+    cfg = NetConfig(default_plan=_plan(kind, d, echo=False), plans={"n1": {}})
+    world = World(peer_factory=cfg.peer_factory, faults=[{"kind": "write", "kind_index": 0, "fault": "WriteErrorAfterDelivery"}])
+    pool = build_pool(world, {}, sync=sync)
+    sp = _spec(kind)
+    res = {"got": b"", "status": None, "exc": None}
+    if sync:
+        try:
+            with pool.stream(sp["method"], sp["url"], headers=sp["headers"], extensions=dict(sp["ext"])) as resp:
+                res["status"] = resp.status
+                ns = resp.extensions.get("network_stream")
+                while ns is not None and len(res["got"]) < d:
+                    data = ns.read(65536)
+                    if not data:
+                        break
+                    res["got"] += data
+        except BaseException as exc:
+            res["exc"] = exc_info(exc) if not isinstance(exc, HarnessHang) else {"type": "HANG", "name": "HANG", "msg": str(exc)}
+        pool.close()
+    else:
+        async def go():
+            try:
+                async with pool.stream(sp["method"], sp["url"], headers=sp["headers"], extensions=dict(sp["ext"])) as resp:
+                    res["status"] = resp.status
+                    ns = resp.extensions.get("network_stream")
+                    while ns is not None and len(res["got"]) < d:
+                        data = await ns.read(65536)
+                        if not data:
+                            break
+                        res["got"] += data
+            except BaseException as exc:
+                res["exc"] = exc_info(exc) if not isinstance(exc, HarnessHang) else {"type": "HANG", "name": "HANG", "msg": str(exc)}
+            await pool.aclose()
+
+        run_async(go())
+    what = f"[{'sync' if sync else 'async'}] {kind} d={d}: the request's own write reports WriteError after the bytes went out, the server hands over"
+    vio = []
+    sig = dict(handover=kind, mode="flaky")
+    handed_over = res["status"] is not None and (res["status"] == 101 or 200 <= res["status"] < 300)
+    if handed_over and res["got"] != leading(d):
+        lost = res["exc"]["msg"] if res["exc"] else ""
+        vio.append(V(P, "bytes-lost", f"{what} (status {res['status']}): the stream yielded {res['got'][:20]!r} ({len(res['got'])} bytes) of the {d} bytes sent after the head {lost}", **sig))
+    return Outcome(vio, ["flaky-live-read", "fault-request-write-error", "handed-over" if handed_over else "not-handed-over"], handed_over and bool(world.fired_faults),
+                   info={"status": res["status"], "got": len(res["got"]), "exc": res["exc"] and res["exc"].get("name")})
+
 
 # ----------------------------------------------------------------------------- tunnel proxy's own CONNECT
 
